@@ -182,7 +182,7 @@ theorem den_stop_prefix (e : SExpr) : (e.den specs true).1 <+: (e.den specs fals
   | stopImmediately s ih => simp [SExpr.den]
   | takeUntil s t ihs iht => exact List.prefix_refl _
 
-/-- **stop_ends_early_no_dup_no_invent (partial)**: a stop request before start makes reduce_stream /
+/-- **stop_before_start_prefix_inline**: a stop request before start makes reduce_stream /
     for_each receive a PREFIX of the elements they receive without it — for every inline stream
     expression.  (Kept as the inline special case, stated against the unstopped run itself; the general
     statement for pending sources and an arbitrary stop position is `stop_ends_early_no_dup_no_invent`.) -/
